@@ -8,13 +8,16 @@ NA = {
  "C01": "octet-exact agreement with STB 34.101.31 and invertibility are facts about values for all inputs; no sound static rule in reach decides them (the verify-before-release clause is decided under C09)",
  "C03": "permutation constants, sponge padding, counter carries and decimal truncation are values for all inputs; no clause has a structural form that is also a necessary condition",
  "C05": "every clause equates a returned value with a mathematical function of the operands for all operand values; static shape says nothing about it",
- "C06": "group-law exactness in all special cases is an equation over values for all points and scalars",
  "C13": "correctness of CRT recovery for every subset and order is polynomial arithmetic over values",
 }
 PENDING = "check not built yet (implementation in progress); the design is in DESIGN.md section 4"
 
 VPNOTE = 'Trusted: clang AST, the path engine, the fact language of sa/vp.py (what counts as a reducing producer / accepted test is listed there), buffer identity by carve expression; frozen per-function tables (point-validation level, accepted alternative forms) carry one reason each. Decides necessary structural conditions, not the numerical statements of the property.'
 CHECKS = {
+ "C06": dict(level="other",
+   text="One clause of the property is decided, and only as a structural necessary condition: the explicit special-case branches the property names (P = Q, P = -Q, O, 2-torsion) are present. For each of the 12 addition/doubling routines of ecp.c/ec2.c (Jacobian, Lopez-Dahab, mixed, affine) all paths are enumerated and the most-tested path must branch on at least as many distinct operand conditions (z = 0, y = 0 / x = 0, H = 0 / B = 0 / equal x, S1 = S2) as the routine has special cases (table with one reason per case, read off the formulas); the five subtraction routines must delegate to the checked additions; ecMulA/ecAddMulA report infinity through the to-affine conversion. That the formulas and the branches compute the group law, scalar-multiplication correctness, on-curve tests and SWU are equations over values and are declined.",
+   design="4/C06 (added in implementation, see 9)", technique="all-paths enumeration of branched-on conditions vs a reasoned special-case table (must-test rule) + who-calls delegation rule",
+   note="Trusted: clang AST, the path engine and fact language of sa/vp.py; tables/ec_special_cases.json (one reason per special case). A special case counts as handled when its condition is branched on; tests of curve constants are not counted. A rewrite with complete formulas would require revising the table."),
  "C07": dict(level="other",
    text="Resource-bound analysis of the scratch-stack convention the property names first: for each of the ~140 functions with a `stack` parameter and a _deep companion, the octets the body carves by pointer arithmetic plus the largest demand of any callee that receives the remaining stack (recursively; calls through ring/curve descriptors demand that object's ->deep; calls through constant function-pointer tables are followed to every entry; direct indexed accesses through stack pointers count as use; objects built inside the stack contribute their creator's sizes) is compared with the value of F_deep on a grid of dimension tuples; the 8 creators are checked the other way round (every installed function fits into ->deep and the public _deep covers it); blob.c's allocation expression covers header + payload for all sizes 1..4199; only mem.c/blob.c call the allocator. Found and fixed 20 under-declared _deep functions. Absence of every out-of-bounds access for all inputs, region sizes inside a carve and _keep formulas of flexible states are not decided.",
    design="4/C07", technique="resource-bound analysis: size formulas lifted from the AST and compared on a dimension grid",
